@@ -72,7 +72,10 @@ for e, fns, rep, dfn, d in (
 # hence the late import, resolved by engine/check.py)
 def _shared():
     from obligations import C08 as _c08
-    return [o for o in _c08.OBLIGATIONS if o.name in ('C08.O5.add_bucket', 'C07.O2.gc_bucket_small', 'C07.O2.gc_bucket')]
+    _r = [o for o in _c08.OBLIGATIONS if o.name in ('C08.O5.add_bucket', 'C07.O2.gc_bucket_small', 'C07.O2.gc_bucket')]
+    from obligations import C10 as _c10
+    _r += [o for o in _c10.OBLIGATIONS if o.name in ('C10.O1.enqueue', 'C10.O1.splice')]
+    return _r
 META = {
     'level': 'proof', 'bounded_apart': True,
     'trusted_base': ['CBMC 6.11 (dfcc contract instrumentation, SAT back end)', 'fls_u64: bsr inline asm replaced by an assumed instruction contract',
